@@ -107,7 +107,7 @@ Decoder::SegmentedPacket::SegmentedPacket(
 bool Decoder::SegmentedPacket::addSegment(
     const uint8_t* data, const size_t size, const uint8_t version, const CmpHeader::MessageType messageType, const uint16_t sequenceCounter)
 {
-    if (curVersion != version || curMessageType != messageType || sequenceCounter != curSegment + 1)
+    if (curVersion != version || curMessageType != messageType || sequenceCounter != static_cast<uint16_t>(curSegment + 1))
         return false;
 
     auto header = reinterpret_cast<const MessageHeader*>(data);
